@@ -175,6 +175,12 @@ impl Pattern {
     }
 }
 
+/// Verification hook: the regular expression a glob is translated to.
+#[cfg(feature = "verif-hooks")]
+pub fn verif_glob_regex(pattern: &str) -> Option<String> {
+    glob_to_regex(pattern)
+}
+
 #[cfg(test)]
 mod tests {
     use super::*;
